@@ -197,7 +197,20 @@ func runC10(c *sim.Ctx) *sim.Violation {
 	}
 	acfg := apiCfg(c, false)
 	a := gen.Packet(t, acfg)
-	if t.Bool(1, 200) || (c.Run >= c10SweepRuns && c.Run < c10SweepRuns+4) {
+	if c.Run >= c10SweepRuns+12 && c.Run < c10SweepRuns+14 {
+		// payloads of 16 MiB and more (an encoder may stop copying such a payload and
+		// hand it to the writer in a call of its own)
+		n := []int{1 << 24, 1<<24 + 1}[c.Run-c10SweepRuns-12]
+		if c.Thorough {
+			n = []int{1<<24 + 77, 1<<25 + 3}[c.Run-c10SweepRuns-12]
+		}
+		a = &ref.AP{Type: ref.Publish, Flags: byte(t.Int(3)) << 1, Topic: []byte("large/payload"), Payload: make([]byte, n)}
+		a.Payload[0], a.Payload[n-1] = 0xA5, 0x5A
+		if a.QoS() > 0 {
+			a.PacketID = 78
+		}
+		c.Count("probe.PUBLISH-payload-of-16MiB-or-more")
+	} else if t.Bool(1, 200) || (c.Run >= c10SweepRuns && c.Run < c10SweepRuns+4) {
 		// large PUBLISH frames on purpose: payloads of 64 KiB..256 KiB, and (runs
 		// right after the sweep, i.e. early in the process) 2..5 MiB
 		n := 65536 + t.Int(3*65536)
